@@ -333,6 +333,21 @@ int main(int argc, char **argv) {
 		return 0;
 	}
 
+	if (cmd == "selfreplay") { // every seeded run must be reproduced exactly by replaying its recorded schedule + faults
+		uint64_t bad = 0, n = 0;
+		for (uint64_t i = start; i < start + count; i++) {
+			uint64_t seed = splitmix(base, i);
+			Plan p; gen(seed, p);
+			RunResult r = execute(E, p);
+			Plan rp = p; rp.replay = true; rp.sched = r.sched; rp.faults = r.faults;
+			RunResult r2 = execute(E, rp);
+			n++;
+			if (r.hash != r2.hash || r.steps != r2.steps) { bad++; if (bad <= 5) printf("SELFREPLAY-MISMATCH seed=%llu hash %016llx vs %016llx steps %llu vs %llu sched=%zu faults=%zu\n", (unsigned long long)seed, (unsigned long long)r.hash, (unsigned long long)r2.hash, (unsigned long long)r.steps, (unsigned long long)r2.steps, r.sched.size(), r.faults.size()); }
+		}
+		printf("selfreplay %llu runs %llu mismatches\n", (unsigned long long)n, (unsigned long long)bad);
+		return bad ? 2 : 0;
+	}
+
 	if (cmd != "run") { fprintf(stderr, "unknown command\n"); return 64; }
 
 	Stats st;
